@@ -1,7 +1,7 @@
 CONSTANTS
   MaxObjs = 2
-  MaxOps = 3
-  MaxSteps = 4
+  MaxOps = 4
+  MaxSteps = 5
   JsonTree = FALSE
   StatusOnly = FALSE
   RemoveDrops = FALSE
